@@ -84,10 +84,14 @@ type Case struct {
 	Rates   []sim.Rates     `json:"rates,omitempty"`
 	MaxRand int             `json:"maxrand,omitempty"`
 	NoLat   bool            `json:"nolat,omitempty"`
-	KeepLog bool `json:"keeplog,omitempty"`
+	// BackScan: observers also scan backwards (Last/Previous). Only sequential model checks ask
+	// for it: on a tree corrupted by the known concurrency defects Previous can loop for ever
+	// inside sop without ever returning, which no in-process watchdog can interrupt.
+	BackScan bool `json:"backscan,omitempty"`
+	KeepLog  bool `json:"keeplog,omitempty"`
 	// Note: free-form tag attached by an enumerating check (e.g. the commit stage a crash point falls in).
-	Note string `json:"note,omitempty"`
-	Audit   bool `json:"audit,omitempty"`
+	Note  string `json:"note,omitempty"`
+	Audit bool   `json:"audit,omitempty"`
 	// FaultPhase restricts faults to the group phase with this index (-1/0 = all).
 	FaultPhase int `json:"faultphase,omitempty"`
 }
@@ -660,6 +664,22 @@ func (e *Env) RunGroup(phase int, txns []Txn) {
 // Observe dumps every store of the case with a fresh read-only transaction, in privileged
 // mode (no scheduling, no faults, no latency).
 func (e *Env) Observe(phase int, label string) Observation {
+	if !e.S.InTask() {
+		// run as a task of its own (alone, no faults): a scan that never returns inside sop is
+		// then caught by the scheduler's stuck detection instead of hanging the harness
+		var o Observation
+		saveF, saveR := e.S.Cfg.Faults, e.S.Cfg.Rates
+		e.S.Cfg.Faults, e.S.Cfg.Rates = nil, nil
+		t := e.S.Spawn("observer-"+label, 0, func(*sim.Task) { o = e.Observe(phase, label) })
+		e.S.Run()
+		e.S.Cfg.Faults, e.S.Cfg.Rates = saveF, saveR
+		if t.Panic != nil {
+			o = Observation{Phase: phase, Label: label, Stores: map[string]Dump{}, Err: fmt.Sprintf("observer panicked: %v", t.Panic)}
+		} else if t.Alive() {
+			o = Observation{Phase: phase, Label: label, Stores: map[string]Dump{}, Err: "observer did not finish (step cap)"}
+		}
+		return o
+	}
 	o := Observation{Phase: phase, Label: label, Stores: map[string]Dump{}}
 	ctx := context.Background()
 	trans, err := infs.NewTransaction(ctx, e.txOptions("r", 0))
@@ -753,7 +773,11 @@ func (e *Env) dumpStore(ctx context.Context, sp StoreSpec, dp *Dump) {
 	if err != nil {
 		d.ScanErr = err.Error()
 	}
-	ok, err = b.Last(ctx)
+	if !e.C.BackScan {
+		ok = false
+	} else {
+		ok, err = b.Last(ctx)
+	}
 	for ok && err == nil {
 		var v string
 		k := b.GetCurrentKey().Key
